@@ -414,7 +414,6 @@ fn parse_matched_braces_or_ending_semi(input: ParseStream) -> syn::Result<TokenS
     let mut tokens = input.step(|cursor| {
         let mut tokens = TokenStream::new();
 
-        use proc_macro2::Delimiter;
         use proc_macro2::TokenTree;
 
         let mut rest = *cursor;
